@@ -923,6 +923,12 @@ enum Op {
     RemoveLabel(usize, String),
     CreateIndex(String),
     DropIndex(String),
+    /// write the value the node already has once more, through db.set_node_property
+    RewriteSame(usize, String),
+    /// the same through a statement: MATCH (n) WHERE n.uid = <uid> SET n.key = <current value>
+    RewriteSameByQuery(usize, String),
+    /// write another value, then the original one again (A -> B -> A)
+    ThereAndBack(usize, String, Value),
 }
 
 impl Op {
@@ -939,6 +945,9 @@ impl Op {
             Op::RemoveLabel(..) => "remove_label",
             Op::CreateIndex(_) => "create_index",
             Op::DropIndex(_) => "drop_index",
+            Op::RewriteSame(..) => "rewrite_same_value",
+            Op::RewriteSameByQuery(..) => "rewrite_same_value_by_query",
+            Op::ThereAndBack(..) => "write_other_then_original_value",
         }
     }
     fn show(&self) -> String {
@@ -954,6 +963,9 @@ impl Op {
             Op::RemoveLabel(i, l) => format!("remove label #{i}:{l}"),
             Op::CreateIndex(k) => format!("create index on {k}"),
             Op::DropIndex(k) => format!("drop index on {k}"),
+            Op::RewriteSame(i, k) => format!("set node #{i}.{k} = <the value it already has> (db.set_node_property)"),
+            Op::RewriteSameByQuery(i, k) => format!("MATCH (n) WHERE n.uid = <uid of #{i}> SET n.{k} = <the value it already has>"),
+            Op::ThereAndBack(i, k, v) => format!("set node #{i}.{k} = {}, then back to its original value", qgen::lit_text(v)),
         }
     }
 }
@@ -1043,12 +1055,58 @@ impl Live {
                     db.drop_property_index(k);
                 }
             }
+            Op::RewriteSame(i, k) => {
+                if let Some(id) = node(self, *i) {
+                    if let Some(v) = current_prop(db, id, k) {
+                        db.set_node_property(id, k, v);
+                    }
+                }
+            }
+            Op::RewriteSameByQuery(i, k) => {
+                if let Some(id) = node(self, *i) {
+                    if let Some(v) = current_prop(db, id, k) {
+                        // a statement when the value and the node's uid can be written as literals,
+                        // the direct API otherwise; planned with every optimisation off so that the
+                        // statement itself does the same in every database
+                        let uid = current_prop(db, id, "uid");
+                        let writable = matches!(&v, Value::Int64(_) | Value::Bool(_) | Value::String(_)) || matches!(&v, Value::Float64(f) if f.is_finite());
+                        match (uid, writable) {
+                            (Some(Value::Int64(u)), true) => {
+                                set_flags(BASE);
+                                let text = format!("MATCH (n) WHERE n.uid = {u} SET n.{k} = {} RETURN n.uid AS c1", qgen::lit_text(&v));
+                                let session = db.session();
+                                let _ = catch(|| session.execute(&text));
+                            }
+                            _ => db.set_node_property(id, k, v),
+                        }
+                    }
+                }
+            }
+            Op::ThereAndBack(i, k, other) => {
+                if let Some(id) = node(self, *i) {
+                    if let Some(v) = current_prop(db, id, k) {
+                        db.set_node_property(id, k, other.clone());
+                        db.set_node_property(id, k, v);
+                    }
+                }
+            }
         }
     }
 }
 
+fn current_prop(db: &GrafeoDB, id: NodeId, key: &str) -> Option<Value> {
+    db.get_node(id).and_then(|n| n.properties.iter().find(|(k, _)| k.as_str() == key).map(|(_, v)| v.clone()))
+}
+
 fn gen_op(r: &mut Rng, n_nodes: usize, n_edges: usize, uid: &mut i64) -> Op {
-    match r.below(20) {
+    match r.below(25) {
+        20 | 21 => Op::RewriteSame(r.below(n_nodes.max(1)), (*r.pick(&qgen::IDX_KEYS)).to_string()),
+        22 => Op::RewriteSameByQuery(r.below(n_nodes.max(1)), (*r.pick(&qgen::IDX_KEYS)).to_string()),
+        23 | 24 => {
+            let key = (*r.pick(&qgen::IDX_KEYS)).to_string();
+            let other = if r.chance(0.5) { Value::Int64(r.range(10, 15)) } else { qgen::node_prop_value(r, &key) };
+            Op::ThereAndBack(r.below(n_nodes.max(1)), key, other)
+        }
         0 | 1 => {
             *uid += 1;
             let mut n = qgen::gen_node(r, *uid);
@@ -1296,6 +1354,28 @@ fn directed_histories() -> Vec<(GraphSpec, Query, Vec<&'static str>, Vec<Vec<Op>
         ),
         // index created, dropped and re-created between executions
         (three(), q_node(None, cmp("n1", "w", Cmp::Eq, i(3))), vec!["k"], vec![vec![Op::CreateIndex("w".into())], vec![set(0, "w", i(3))], vec![Op::DropIndex("w".into())], vec![set(1, "w", i(3))], vec![Op::CreateIndex("w".into())], vec![set(0, "w", i(4))]]),
+        // an unchanged value written again on an indexed key (API, statement), another value and
+        // back, then the index dropped and re-created: the equality must keep finding the node
+        (
+            three(),
+            q_node(None, cmp("n1", "k", Cmp::Eq, i(1))),
+            vec!["k"],
+            vec![
+                vec![Op::RewriteSame(0, "k".into())],
+                vec![Op::RewriteSameByQuery(0, "k".into())],
+                vec![Op::ThereAndBack(0, "k".into(), i(7))],
+                vec![set(0, "k", i(1))],
+                vec![Op::DropIndex("k".into()), Op::CreateIndex("k".into())],
+                vec![Op::RewriteSame(0, "k".into()), Op::RewriteSame(1, "k".into())],
+            ],
+        ),
+        // the same on a key whose values are of mixed kinds, index created during the history
+        (
+            GraphSpec { nodes: vec![node(0, &[("z", Value::Float64(1.5))], "L0"), node(1, &[("z", vals::s("a"))], "L0"), node(2, &[("z", Value::Bool(true))], "L1")], edges: vec![] },
+            q_node(None, cmp("n1", "z", Cmp::Eq, vals::s("a"))),
+            vec!["k"],
+            vec![vec![Op::CreateIndex("z".into())], vec![Op::RewriteSame(1, "z".into())], vec![Op::RewriteSameByQuery(1, "z".into()), Op::RewriteSame(0, "z".into())], vec![Op::ThereAndBack(1, "z".into(), i(3))]],
+        ),
         // edge property updates, new edges, deletions
         (three(), q_edge, vec!["w"], vec![vec![Op::SetEdgeProp(0, "w".into(), i(9))], vec![Op::AddEdge(edge(150, 2, 0, 8))], vec![Op::DeleteEdge(1)], vec![Op::DeleteNode(0)]]),
     ]
@@ -1319,12 +1399,37 @@ fn history_part(rep: &mut Report, tier: Tier, seed: u64) {
         let lang = if r.chance(0.6) { Lang::Gql } else { Lang::Cypher };
         let q = if r.chance(0.75) { history_query(&mut r, lang) } else { qgen::gen_query(&mut r, Profile::Physical, lang, false) };
         let keys = idx_subset(&mut r, case);
+        // a third of the histories aim at index maintenance: an equality on an indexed key with a
+        // value some node really has, and in every step a write to exactly that node and key
+        // (the same value again, by API or by statement; another value and back; the value anew)
+        let mut q = q;
+        let mut target: Option<(usize, String, Value)> = None;
+        if r.chance(0.35) {
+            let key = (*r.pick(&keys)).to_string();
+            let holders: Vec<(usize, Value)> = g
+                .nodes
+                .iter()
+                .enumerate()
+                .filter_map(|(i, n)| n.props.iter().find(|(k, _)| *k == key).map(|(_, v)| (i, v.clone())))
+                .filter(|(_, v)| matches!(v, Value::Int64(_) | Value::Bool(_) | Value::String(_)) || matches!(v, Value::Float64(f) if f.is_finite()))
+                .collect();
+            if !holders.is_empty() {
+                let (i, v) = r.pick(&holders).clone();
+                let mut tq = Query::empty(lang);
+                tq.matches.push(qgen::MatchClause { optional: false, paths: vec![qgen::PathPat { start: qgen::NodePat { var: "n1".into(), label: None, props: vec![] }, steps: vec![] }] });
+                tq.filter = Some(Pred::Cmp(Expr::Prop("n1".into(), key.clone()), Cmp::Eq, Expr::Lit(v.clone())));
+                tq.ret.push(qgen::RetItem { agg: None, expr: Expr::Prop("n1".into(), "uid".into()), alias: "c1".into() });
+                q = tq;
+                target = Some((i, key, v));
+                rep.count("history.targeted_at_index_maintenance", 1);
+            }
+        }
         let n_steps = 2 + r.below(4);
         let mut uid = 50i64;
         let (mut nn, mut ne) = (g.nodes.len(), g.edges.len());
         let steps: Vec<Vec<Op>> = (0..n_steps)
             .map(|_| {
-                (0..1 + r.below(4))
+                let mut ops: Vec<Op> = (0..1 + r.below(4))
                     .map(|_| {
                         let op = gen_op(&mut r, nn, ne, &mut uid);
                         match &op {
@@ -1334,7 +1439,18 @@ fn history_part(rep: &mut Report, tier: Tier, seed: u64) {
                         }
                         op
                     })
-                    .collect()
+                    .collect();
+                if let Some((i, key, v)) = &target {
+                    let op = match r.below(5) {
+                        0 | 1 => Op::RewriteSame(*i, key.clone()),
+                        2 => Op::RewriteSameByQuery(*i, key.clone()),
+                        3 => Op::ThereAndBack(*i, key.clone(), Value::Int64(r.range(10, 15))),
+                        _ => Op::SetNodeProp(*i, key.clone(), v.clone()),
+                    };
+                    let at = r.below(ops.len() + 1);
+                    ops.insert(at, op);
+                }
+                ops
             })
             .collect();
         (g, q, keys, steps)
